@@ -38,6 +38,11 @@ def valid(interval, timeout):
     return True
 
 
+def trace_variant(desc, tier):
+    """With trace logging enabled: the silent / responsive scenarios without extra traffic, the refused settings."""
+    return not desc.get("line") and desc.get("traffic", "none") == "none" and not desc.get("prior") and desc.get("dt") is None
+
+
 def tasks(tier, seed):
     ts = []
     for iv in INTERVALS:
@@ -72,6 +77,14 @@ def tasks(tier, seed):
             for pat in ("0", "to"):
                 ts.append({"kind": "responsive", "iv": iv, "to": to, "pat": pat, "payload": "k", "traffic": traffic, "bound": 2, "prior": "errored-run",
                            "name": "after-errored-run/responsive/%s/%s/%s/%s" % (iv, to, pat, traffic)})
+    # a process-wide default socket timeout (setdefaulttimeout) much larger / smaller than the ping timeout must not change the keepalive
+    for iv, to in ((2, 1), (2.5, 2)):
+        for dt in (30, 0.5):
+            for traffic in ("none", "at-deadline"):
+                ts.append({"kind": "silent", "iv": iv, "to": to, "j": 1, "payload": "k", "traffic": traffic, "bound": 2, "dt": dt,
+                           "name": "defaulttimeout=%s/silent/%s/%s/j1/%s" % (dt, iv, to, traffic)})
+                ts.append({"kind": "responsive", "iv": iv, "to": to, "pat": "to", "payload": "k", "traffic": traffic, "bound": 2, "dt": dt,
+                           "name": "defaulttimeout=%s/responsive/%s/%s/to/%s" % (dt, iv, to, traffic)})
     # line-level: the ping thread preempting the loop (and vice versa) at every executed library line, for pairs where ping instants and
     # select deadlines coincide (interval a multiple of the timeout) and where they do not
     for iv, to in (((2, 1),) if tier == "quick" else ((2, 1), (3, 1), (2.5, 2), (4, 2))):
@@ -153,6 +166,8 @@ class Harness:
             mk = (lambda: tnet.ServerPeer(script=script, on_ping=("pattern", pat))) if pat else (lambda: tnet.ServerPeer(script=script, on_ping=None))
         spec = {"url": "ws://h.example/", "callbacks": ["on_open", "on_message", "on_error", "on_close", "on_ping", "on_pong"], "attempts": [mk],
                 "run_kwargs": run_kwargs, "horizon": 400.0, "max_steps": 30000 if not d.get("line") else 200000, "line_level": bool(d.get("line"))}
+        if d.get("dt") is not None:
+            spec["default_timeout"] = d["dt"]
         if d.get("prior") == "errored-run":
             lost_at = iv + 0.5
             spec["attempts"] = [lambda: tnet.ServerPeer(script=[(lost_at, "eof", b"")], on_ping=("all", 0.0))]
